@@ -23,6 +23,7 @@ FIX_COMMITS = {  # (property, rule) -> fix commit in /repo
     ("C12", "A1"): "359268c", ("C12", "A2"): "84d1c7d", ("C11", "D1"): "18618bf", ("C11", "D2"): "40f1949",
     ("C11", "R1"): "467b51c", ("C16", "F1"): "157681b", ("C01", "W5"): "157681b", ("C18", "S13"): "ed01309", ("C16", "Q2"): "ed01309", ("C16", "Q3"): "d4aff69",
     ("C04", "A2"): "a055c8d",
+    ("C02", "E16"): "ed01309", ("C12", "A13"): "ed01309", ("C17", "M11"): "094a7c2", ("C01", "W9"): "d4aff69",
 }
 KNOWN_DEMOS = {
     ("C01", "O2"): ("findings/demos/demo_c01_o2_effect_then_4xx.py",
